@@ -134,7 +134,7 @@ class C02(Cfg):
     ]
 
     def streams(self, tier, seed, work, dv):
-        n = 350 if tier == "quick" else 5000
+        n = 300 if tier == "quick" else 4000
         path = os.path.join(work, "random.ops")
         lib.sh([dv, "gen", "--prop", "C02", "--seed", str(seed), "--n", str(n), "--out", path], check=True)
         return [("random seed=%d n=%d" % (seed, n), path, False)]
